@@ -25,7 +25,7 @@ P = {
  "C09": dict(tech="runtime monitor: reflection-enumerated methods invoked on read-only instances (and on other instances with the read-only one as argument or nested element), recursive VerifDump before/after diff, writable-twin measurement",
    text="Exploration: every exported method of *Stack/*Condition x argument variants x 24 / 96 richly configured random instances, 40k / 200k random call sequences, and 40k / 200k foreign-role cases (read-only instance as argument of, or nested inside, a writable receiver incl. structure-rewriting calls); nothing but the documented exceptions may differ in the raw record, Free must refuse, clearing the flag restores mutability.", ref="2 C09"),
  "C10": dict(tech="runtime monitor: deterministic interleaving explorer over the lock-point hook (cooperative scheduler, snapshot oracle for 'writes only under the lock'), porcupine linearizability checking of recorded histories, free-running stress and conservation-checked hammer runs under the Go race detector with address-classified reports",
-   text="Exploration: all interleavings (at lock-acquisition granularity) of all 2-worker x 1-op programs over 13 mutators x length 0..3 x LIFO/FIFO x 3 capacity modes, up to 200/400 interleavings of 1.5k / 60k sampled 2-3-worker programs, 1.5k / 40k free-running 3-7-goroutine histories, every history checked by porcupine against the sequential list model; 480 / 12k hammer runs (Pop/Push-back cyclers against Replace/Swap on a stack that holds at least two values in every sequential order: every call must succeed, length and unique content conserved); 338 duels (every ordered pair of the 13 mutators x LIFO/FIFO, 3k / 40k free-running trials each behind a spin barrier with a sweeping skew, each trial must end in one of the two sequential outcomes); race reports classified by address class, reading function and (for slot 0) writing function. The slice-header race of the unlocked prologue is a recorded known finding.", ref="2 C10",
+   text="Exploration: all interleavings (at lock-acquisition granularity) of all 2-worker x 1-op programs over 13 mutators x length 0..3 x LIFO/FIFO x 3 capacity modes, up to 200/400 interleavings of 1.5k / 60k sampled 2-3-worker programs, 1.5k / 40k free-running 3-7-goroutine histories, every history checked by porcupine against the sequential list model; 480 / 12k hammer runs (Pop/Push-back cyclers against Replace/Swap on a stack that holds at least two values in every sequential order: every call must succeed, length and unique content conserved); 338 duels (every ordered pair of the 13 mutators x LIFO/FIFO, 1.5k / 20k free-running trials each behind a spin barrier with a sweeping skew, each trial must end in one of the two sequential outcomes); race reports classified by address class, reading function and (for slot 0) writing function. The slice-header race of the unlocked prologue is a recorded known finding.", ref="2 C10",
    note="Trusted base: Go toolchain and race detector, porcupine v1.3.0, the verifPoint hook positions (immediately before Lock, after Lock, after Unlock), VerifDump, the cooperative scheduler and the sequential list model in the harness. Schedules are explored at lock-acquisition granularity only."),
  "C11": dict(tech="runtime monitor under the Go race detector: before/after VerifDump diff, answer stability and lock-freedom for every query; parallel readers with isolated-answer oracle; race-log parsing",
    text="Exploration: 3k / 100k random trees (computed identifiers, pure policies) with every judged query - the listed ones, every Is/Can method and the plain getters, reflection-enumerated and name-classified - issued twice around an answer-clobbering step with the lock-point hook watching for lock acquisitions, and 120 / 2k trees queried by 8-16 goroutines under -race; any race report, lock acquisition, answer deviation or snapshot difference is a violation.", ref="2 C11",
